@@ -140,6 +140,18 @@ def cross_device(ctx):
         shutil.rmtree(ext, ignore_errors=True)
 
 
+def gen_into_dest(rng, driver):
+    """the destination directory already exists and HOLDS what some source links point to (a shared directory next to where the
+    copy lands): those links are dereferenced like any other"""
+    sc = treerun.Scn(); sc.driver = driver; sc.workers = rng.choice([1, 4])
+    sc.d(b'/W').d(b'/W/DEST').d(b'/W/DEST/shared').f(b'/W/DEST/shared/common.cfg').d(b'/W/DEST/shared/assets').f(b'/W/DEST/shared/assets/logo')
+    sc.d(b'/W/S').f(b'/W/S/main').l(b'/W/S/cfg', b'../DEST/shared/common.cfg').l(b'/W/S/assets', rng.choice([b'../DEST/shared/assets', b'/W/DEST/shared/assets']))
+    sc.l(b'/W/S/viaother', b'assets/logo')
+    sc.opts = ['r', 'L']; sc.paths = [b'S', rng.choice([b'DEST', b'./DEST/', b'/W/DEST'])]
+    sc.kinds = ['targets-inside-destination']; sc.tb = b'/W/DEST/S'
+    return sc
+
+
 def run(ctx):
     ctx.proofs()
     core.build_repo(); core.build_sup()
@@ -147,7 +159,7 @@ def run(ctx):
     n = 120 if ctx.quick else 2000
     # corpus: the repaired defect F4 (a link to a directory became an empty directory)
     c0 = gen(rng, 'parfile'); c0.entries = [e for e in c0.entries if e['k'] != 'l']; c0.l(b'/W/S/ld', b'real'); c0.kinds = ['dir-rel']
-    scs = [c0] + [gen(rng, ['parfile', 'parblock'][i % 2]) for i in range(n)] + [gen_operands(rng, ['parfile', 'parblock'][i % 2]) for i in range(16 if ctx.quick else 200)]
+    scs = [c0] + [gen(rng, ['parfile', 'parblock'][i % 2]) for i in range(n)] + [gen_operands(rng, ['parfile', 'parblock'][i % 2]) for i in range(16 if ctx.quick else 200)] + [gen_into_dest(rng, ['parfile', 'parblock'][i % 2]) for i in range(6 if ctx.quick else 40)]
     runs = []
     with core.Scratch('c13') as base:
         for i, sc in enumerate(scs):
@@ -214,7 +226,7 @@ def run(ctx):
                         if q.startswith(r[1] + b'/') and b'/' not in q[len(r[1]) + 1:]:
                             expect(q, dstp + b'/' + q[len(r[1]) + 1:], depth + 1)
             if not getattr(sc, 'operands', False) and not getattr(sc, 'glob_operands', False):
-                expect(b'/W/S', b'/W/DEST')
+                expect(b'/W/S', getattr(sc, 'tb', b'/W/DEST'))
             if getattr(sc, 'glob_operands', False) and not bad:
                 for e in sc.entries:
                     if e['k'] == 'l' and e['p'].startswith(b'/W/S/l'):
